@@ -42,15 +42,14 @@ int stim::command_detect(int argc, const char **argv) {
         find_argument("--shots", argc, argv)    ? (uint64_t)find_int64_argument("--shots", 1, 0, INT64_MAX, argc, argv)
         : find_argument("--detect", argc, argv) ? (uint64_t)find_int64_argument("--detect", 1, 0, INT64_MAX, argc, argv)
                                                 : 1;
-    if (out_format.id == SampleFormat::SAMPLE_FORMAT_DETS && !append_observables) {
-        prepend_observables = true;
-    }
-
     RaiiFile in(find_open_file_argument("--in", stdin, "rb", argc, argv));
     RaiiFile out(find_open_file_argument("--out", stdout, "wb", argc, argv));
     RaiiFile obs_out(find_open_file_argument("--obs_out", stdout, "wb", argc, argv));
     if (obs_out.f == stdout) {
         obs_out.f = nullptr;
+    }
+    if (out_format.id == SampleFormat::SAMPLE_FORMAT_DETS && !append_observables && obs_out.f == nullptr) {
+        prepend_observables = true;
     }
     if (out.f == stdout) {
         out.responsible_for_closing = false;
